@@ -3,7 +3,12 @@ package gradtrack
 import "github.com/sahandsafizadeh/qeep/tensor/internal/tensor"
 
 func BackPropagate(t tensor.Tensor) (err error) {
-	return backward(startEdge(t))
+	edge := startEdge(t)
+
+	pending := make(map[*GradContext]int)
+	countPendingGrads(edge, pending)
+
+	return backward(edge, pending)
 }
 
 func startEdge(t tensor.Tensor) (edge *backwardEdge) {
@@ -16,7 +21,26 @@ func startEdge(t tensor.Tensor) (edge *backwardEdge) {
 	}
 }
 
-func backward(edge *backwardEdge) (err error) {
+// countPendingGrads counts, for every tracked context reachable through edge,
+// the number of back edges that will deliver a gradient to it.
+func countPendingGrads(edge *backwardEdge, pending map[*GradContext]int) {
+	gctx := gradContextOf(edge.target)
+
+	if !gctx.tracked {
+		return
+	}
+
+	pending[gctx]++
+	if pending[gctx] > 1 {
+		return
+	}
+
+	for _, e := range gctx.backEdges {
+		countPendingGrads(e, pending)
+	}
+}
+
+func backward(edge *backwardEdge, pending map[*GradContext]int) (err error) {
 	gctx := gradContextOf(edge.target)
 
 	if !gctx.tracked {
@@ -35,8 +59,14 @@ func backward(edge *backwardEdge) (err error) {
 		return
 	}
 
+	// the accumulated gradient is complete only after every consumer has delivered its share
+	pending[gctx]--
+	if pending[gctx] > 0 {
+		return nil
+	}
+
 	for _, e := range gctx.backEdges {
-		err = backward(e)
+		err = backward(e, pending)
 		if err != nil {
 			return
 		}
